@@ -33,6 +33,8 @@ pub enum RubMode {
     None,
     Exact,
     Slack,
+    /// exact value-to-go plus a state-dependent slack in 0..=slack (a bound that is not monotone in the value of the node)
+    Noisy,
 }
 #[derive(Clone, Copy, Debug, PartialEq, Eq)]
 pub enum DomMode {
@@ -112,7 +114,7 @@ impl Model {
         let mut r = StdRng::seed_from_u64(seed ^ 0x907e_0001);
         let w = if self.family == Family::Lifted { self.b } else { 3 };
         self.dom = DomMode::None;
-        self.pot = (0..=self.n).map(|d| (0..w).map(|_| if d == self.n { 0 } else { r.gen_range(-3..=3) }).collect()).collect();
+        self.pot = (0..=self.n).map(|d| (0..w).map(|_| if d == self.n { 0 } else { r.gen_range(-8..=8) }).collect()).collect();
         self.v0 += self.phi(0, self.root);
         self.memo = Default::default();
         self
@@ -152,7 +154,7 @@ impl Model {
         me.with_depth = with_depth;
         me.long_arcs = long_arcs;
         me.rub = if with_depth { rub } else { RubMode::None };
-        me.slack = r.gen_range(0..4);
+        me.slack = if rub == RubMode::Noisy { r.gen_range(3..10) } else { r.gen_range(0..4) };
         me.dom = dom;
         me
     }
@@ -170,7 +172,7 @@ impl Model {
         me.b = me.root as usize + 1;
         me.v0 = r.gen_range(0..2);
         me.rub = rub;
-        me.slack = r.gen_range(0..3);
+        me.slack = if rub == RubMode::Noisy { r.gen_range(3..10) } else { r.gen_range(0..3) };
         me.dom = dom;
         me
     }
@@ -188,7 +190,7 @@ impl Model {
         me.b = me.root as usize + 1;
         me.v0 = 0;
         me.rub = rub;
-        me.slack = r.gen_range(0..3);
+        me.slack = if rub == RubMode::Noisy { r.gen_range(3..10) } else { r.gen_range(0..3) };
         me.dom = dom;
         me
     }
@@ -215,7 +217,7 @@ impl Model {
         me.root = (1u32 << n) - 1;
         me.v0 = 0;
         me.rub = rub;
-        me.slack = r.gen_range(0..3);
+        me.slack = if rub == RubMode::Noisy { r.gen_range(3..10) } else { r.gen_range(0..3) };
         me.dom = dom;
         me
     }
@@ -368,7 +370,7 @@ impl Model {
             "family": fam, "n": self.n, "b": self.b, "m": self.m, "arcs": arcs,
             "root": self.xjson(self.root), "v0": self.v0,
             "with_depth": self.with_depth, "long_arcs": self.long_arcs,
-            "rub": match self.rub { RubMode::None => "none", RubMode::Exact => "exact", RubMode::Slack => "slack" },
+            "rub": match self.rub { RubMode::None => "none", RubMode::Exact => "exact", RubMode::Slack => "slack", RubMode::Noisy => "noisy" },
             "slack": self.slack,
             "dom": match self.dom { DomMode::None => "none", DomMode::Exact => "exact", DomMode::Keyed => "keyed" },
             "profit": self.profit, "weight": self.weight,
@@ -396,7 +398,7 @@ impl Model {
         me.v0 = v["v0"].as_i64().unwrap() as isize;
         me.with_depth = v["with_depth"].as_bool().unwrap();
         me.long_arcs = v["long_arcs"].as_bool().unwrap();
-        me.rub = match v["rub"].as_str().unwrap() { "none" => RubMode::None, "exact" => RubMode::Exact, _ => RubMode::Slack };
+        me.rub = match v["rub"].as_str().unwrap() { "none" => RubMode::None, "exact" => RubMode::Exact, "noisy" => RubMode::Noisy, _ => RubMode::Slack };
         me.slack = v["slack"].as_i64().unwrap() as isize;
         me.dom = match v["dom"].as_str().unwrap() { "none" => DomMode::None, "exact" => DomMode::Exact, _ => DomMode::Keyed };
         me.profit = v["profit"].as_array().map(|a| a.iter().map(|x| x.as_i64().unwrap() as isize).collect()).unwrap_or_default();
@@ -534,6 +536,8 @@ impl Relaxation for Model {
         let h = h.unwrap_or(-1000);
         match self.rub {
             RubMode::Exact => h,
+            // the noise depends on the state only: (7 depth + 13 code(state)) mod (slack + 1), code = bit mask / capacity
+            RubMode::Noisy => h + ((7 * (if self.with_depth { s.d.max(0) } else { 0 }) as isize + 13 * s.x as isize) % (self.slack + 1)),
             _ => h + self.slack,
         }
     }
